@@ -253,3 +253,15 @@ func portableWidthRule(c *Ctx, id string) {
 	pw := c.Run.Rule("PORTABLE-width", "no 64-bit integer is converted to a platform-sized integer (the 32-bit targets would compute something else)", 450).RequireControl(1)
 	checkPortableWidth(c.Prog(id), pw)
 }
+
+// ownershipRules: INPUT-readonly and RETURN-fresh in the first configuration of the tier.
+func ownershipRules(c *Ctx) {
+	id := c.Configs()[0]
+	if !c.Preload(id) {
+		return
+	}
+	c.Run.SetConfig(id)
+	p := c.Prog(id)
+	checkInputReadonly(p, c.Run.Rule("INPUT-readonly", "no exported function of a public package writes through an input parameter", 200), false)
+	checkReturnFresh(p, c.Run.Rule("RETURN-fresh", "byte slices returned by exported functions never alias the storage of the receiver or of a parameter", 20), false)
+}
